@@ -195,6 +195,33 @@ class ExprMixin:
         go(st, 0)
         return results
 
+    def classattr_item(self, st, c, k, node):
+        """<Class>.<table>[key] for a class-level dict literal with constant keys, read from the real ast.
+        Values: constants, or calls of a class-level namedtuple with constant arguments (-> a tuple)."""
+        cname, attr = c.payload
+        d = self.index.class_by_name[cname].class_assigns[attr]
+        kk = ops.deref(st, k)
+        ck = concrete_str(kk.t) if isinstance(kk, VStr) else (concrete_int(kk.t) if isinstance(kk, VInt) else None)
+        if not isinstance(d, ast.Dict) or ck is None:
+            raise Unsupported(f"subscript of class attribute {cname}.{attr} (needs a dict literal and a concrete key)")
+        for kn, vn in zip(d.keys, d.values):
+            if isinstance(kn, ast.Constant) and kn.value == ck:
+                if isinstance(vn, ast.Constant):
+                    return self.eval(st, vn)
+                if isinstance(vn, ast.Call) and all(isinstance(x, ast.Constant) for x in vn.args) and not vn.keywords:
+                    mk = self.index.class_by_name[cname].class_assigns.get(getattr(vn.func, "id", None))
+                    if isinstance(mk, ast.Call) and ast.unparse(mk.func).endswith("namedtuple"):
+                        fields = [e.value for e in mk.args[1].elts] if isinstance(mk.args[1], (ast.List, ast.Tuple)) else None
+                        items = []
+                        for x in vn.args:
+                            (_, v), = self.eval(st, x)
+                            items.append(v)
+                        t = VTuple(items)
+                        t.field_names = fields
+                        return [(st, t)]
+                raise Unsupported(f"value of {cname}.{attr}[{ck!r}] is not a constant or a namedtuple of constants")
+        return [(st, Exc("KeyError", self.line(node)))]
+
     def expr_UnaryOp(self, st, n):
         out = []
         for s, v in self.eval(st, n.operand):
